@@ -59,7 +59,8 @@ def table_seeded():
                 vio.append(ob)
         det = m.get('detected')
         how = ('; '.join('`%s`' % v[:110] for v in vio[:3]) + (' (+%d more)' % (sum(c.get('n_violations', 0) for c in m['checks'].values()) - 3)
-               if sum(c.get('n_violations', 0) for c in m['checks'].values()) > 3 else '')) if det else '**not detected**'
+               if sum(c.get('n_violations', 0) for c in m['checks'].values()) > 3 else '')) if det else \
+            ('*rejected* -- ' + m['rejected'][:300] if m.get('rejected') else '**not detected**')
         summ = (a.get('summary') or '')[:260].replace('|', '\\|').replace('\n', ' ')
         needs = (m.get('needs') or a.get('needs') or '')[:260].replace('|', '\\|').replace('\n', ' ')
         rows.append('| %s | %s | %s | %s | %s |' % (tag, m.get('breaks', m.get('property')), summ, needs, how))
